@@ -163,6 +163,14 @@ func (s *Stream) reset() {
 	s.conn = nil
 	s.src.Reset()
 	s.dst.Reset()
+
+	// Frames left unflushed by the previous connection must not be written
+	// to the next one.
+	for i := range s.pendingFrames {
+		s.releaseFrame(s.pendingFrames[i])
+		s.pendingFrames[i] = nil
+	}
+	s.pendingFrames = s.pendingFrames[:0]
 }
 
 // Returns the stream through which IO is done.
